@@ -46,6 +46,10 @@ def make_desc(rng, migrations=None, edge_md=True, unique_node_md=False, max_node
     if unique_node_md:
         for i, r in enumerate(d["nodes"]):
             r[4] = bytes([0xA0, i]).hex()
+    if rng.random() < 0.25:                        # application-defined flag bits on top of IS_SAMPLE
+        for r in d["nodes"]:
+            if rng.random() < 0.5:
+                r[0] |= rng.choice([1 << 16, 1 << 19, (1 << 16) | (1 << 20)])
     # known mutation times: move whole (site, node-time) groups half a unit up
     for s in range(len(d["sites"])):
         off = {}
@@ -513,6 +517,38 @@ def shrink_case(case):
         yield c
 
 
+def as_layout(values, layout, dtype):
+    """The same argument values as a list or as numpy arrays of various layouts (already-correct
+    dtype so that no conversion copy happens, strided / reversed views, a column of a 2-D array)."""
+    import numpy as np
+    if layout == "list":
+        return values
+    a = np.array(values, dtype=dtype)
+    if layout == "array":
+        return a
+    if layout == "other-dtype":
+        return np.array(values, dtype=np.int64 if dtype == np.int32 else np.float32) if dtype == np.int32 else a.astype(np.float64, order="F")
+    if layout == "strided":
+        big = np.zeros((2 * len(values),) + a.shape[1:], dtype=dtype)
+        big[::2] = a
+        big[1::2] = -7
+        return big[::2]
+    if layout == "reversed":
+        return np.array(values[::-1], dtype=dtype)[::-1]
+    if layout == "column":
+        if a.ndim == 1:
+            big = np.full((len(values), 3), -7, dtype=dtype)
+            big[:, 1] = a
+            return big[:, 1]
+        big = np.full((len(values), 5), -7.0, dtype=dtype)
+        big[:, 1:4:2] = a
+        return big[:, 1:4:2]
+    raise ValueError(layout)
+
+
+LAYOUTS = ["list", "list", "array", "other-dtype", "strided", "reversed", "column"]
+
+
 def try_op(f):
     try:
         return f(), None
@@ -564,6 +600,8 @@ class Flagged(Family):
                 c.pop("metadata", None)          # node schema is JSON: new nodes get the empty value {}
             if r2.random() < 0.3:
                 c["prov"] = True
+            if c.get("op") in ("keep_intervals", "delete_intervals", "delete_sites") and "raw_intervals" not in c:
+                c["layout"] = r2.choice(LAYOUTS)
             yield c
 
 
@@ -628,6 +666,9 @@ class Intervals(Flagged):
         ivs = [[real(a, s), real(b, s)] for a, b in case["intervals"]]
         if "raw_intervals" in case:
             ivs = case["raw_intervals"]
+        elif ivs and case.get("layout", "list") != "list":
+            import numpy as np
+            ivs = as_layout(ivs, case["layout"], np.float64)
         try:
             if case["api"] == "ts":
                 ts = tc.tree_sequence()
@@ -1037,11 +1078,15 @@ class DelSites(Flagged):
         obs = {"in": dump(tc, s)}
         ctx0 = context(tc) if case.get("ctx") else None
         prov = bool(case.get("prov"))
+        ids = case["ids"]
+        if ids and case.get("layout", "list") != "list":
+            import numpy as np
+            ids = as_layout(ids, case["layout"], np.int32)
         try:
             if case["api"] == "ts":
-                out = tc.tree_sequence().delete_sites(case["ids"], record_provenance=prov).dump_tables()
+                out = tc.tree_sequence().delete_sites(ids, record_provenance=prov).dump_tables()
             else:
-                tc.delete_sites(case["ids"], record_provenance=prov)
+                tc.delete_sites(ids, record_provenance=prov)
                 out = tc
         except Exception as e:      # noqa: BLE001
             obs["error"] = type(e).__name__
